@@ -14,7 +14,10 @@ RULE = ("the C01 case set (complete small layer + seeded-random documents x guid
         "(1-3 operands joined by + - &, optional trailing segment) whose operands select scalars only are checked the same way "
         "(collectors are outside the Lean model; crashes with non-scalar operands are counted, not judged), and 12 000 (300 000) "
         "document-guided paths holding one keyword segment (unique/distinct/min/max/has_child/name/parent; modelled by C13, here only the "
-        "exception type is checked).  Correspondence: the error class equals the Lean model's.  "
+        "exception type is checked), plus the keyword-parameter layer: every keyword, plain and inverted, x 46 parameter texts "
+        "(bare / quoted / escaped blanks, empty quotes, a lone `&`, lone and unbalanced quotes, commas without values, padded names) "
+        "x documents with blank and empty keys and values, anchors and nulls x 10 ways of reaching them, alone and followed by `*`, "
+        "asked through get_nodes(mustexist=True), exists() and get_nodes(mustexist=False); the same items inside 3 000 guided paths.  Correspondence: the error class equals the Lean model's.  "
         "distinct_nontrivial = distinct (document, path) whose required query returns at least one node.")
 
 
@@ -42,6 +45,28 @@ def absorb15(chk, results):
     chk.nontrivial_extra = nontrivial
     # the replay is the smallest failing input found
     chk.violations.sort(key=lambda v: ev.count_nodes(v["case"]["doc"]) * 10 + len(v["case"].get("path") or ""))
+
+
+def keyword_param_docs():
+    """(document, prefixes): maps / lists / Arrays-of-Hashes whose keys and values include the blank and the empty text,
+    an anchored element, nulls."""
+    S = lambda v: {"k": "str", "v": v}          # noqa: E731
+    I = lambda v: {"k": "int", "v": str(v)}     # noqa: E731
+    big = {"k": "map", "e": [
+        ["hash", {"k": "map", "e": [[" ", S("blank key")], ["name", S("value")], ["", I(0)]]}],
+        ["list", {"k": "seq", "i": [S(" "), S("word"), S(""), {"k": "null"}]}],
+        ["aoh", {"k": "seq", "i": [{"k": "map", "e": [[" ", I(1)], ["a", I(1)]]}, {"k": "null"},
+                                   {"k": "map", "e": [["other", I(2)], ["a", S(" ")]]}]}],
+        ["anchored", {"k": "seq", "i": [dict(S("one"), a="x"), S("two")]}],
+        ["hoh", {"k": "map", "e": [["p", {"k": "map", "e": [["a", I(1)], [" ", I(2)]]}], ["q", {"k": "map", "e": [["a", I(3)]]}]]}],
+    ]}
+    return [
+        (big, [["hash"], ["list"], ["aoh"], ["anchored"], ["hoh"], [], ["*"], ["**"], ["aoh", "[0]"], ["hash", "name"]]),
+        ({"k": "map", "e": [[" ", I(1)], ["a", I(2)]]}, [[]]),
+        ({"k": "seq", "i": [S(" "), dict(S("a"), a="x")]}, [[]]),
+        ({"k": "seq", "i": [{"k": "map", "e": [[" ", I(1)], ["a", I(1)]]}, {"k": "null"}, {"k": "map", "e": [["a", I(2)]]}]}, [[], ["[0:2]"]]),
+        (S(" "), [[]]),
+    ]
 
 
 def run(chk: core.Check):
@@ -84,6 +109,29 @@ def run(chk: core.Check):
         items.insert(rng.randint(0, len(items)), rng.choice(ev.KEYWORD_ITEMS))
         kk.append((d, items))
     kk = c01.subsample(chk, kk)
+    # keyword parameter texts: complete layer (every keyword, plain and inverted, x every parameter text x documents with
+    # blank / empty keys and values, anchors, nulls x ways of reaching them), required / exists / optional queries
+    pitems = ev.keyword_param_items()
+    pcases = [(d, pre + [it] + tail) for it in pitems for d, pres in keyword_param_docs() for pre in pres
+              for tail in ([], ["*"])]
+    chk.extra_cov["keyword_parameter_layer"] = "%d keyword items x %d (document, prefix) pairs x 2 tails" % (
+        len(pitems), sum(len(p) for _d, p in keyword_param_docs()))
+    pcases = c01.subsample(chk, pcases)
+    prand = []          # random paths may name missing nodes: the optional mode would create them (C09), so required / exists only
+    for _ in range(nkw // 4):
+        d = ev.random_doc(rng, rng.choice([6, 10, 15]))
+        items = ev.guided_path(rng, d, 3)
+        items.insert(rng.randint(0, len(items)), rng.choice(pitems))
+        prand.append((d, items))
+    prand = c01.subsample(chk, prand)
+    for stats, viol in core.pmap(ev.keyword_chunk, [(c, dict(opts, kw_opt=True)) for c in core.chunked(pcases, 128)]
+                                 + [(c, opts) for c in core.chunked(prand, 64)]):
+        chk.evaluations += stats["n"]
+        chk.out_of_model += stats["n"]
+        for k, v in stats.items():
+            chk.count("keyword-params:" + k, v)
+        for sig, w, case in viol:
+            chk.violation(sig, w, case)
     for stats, viol in core.pmap(ev.keyword_chunk, [(c, opts) for c in core.chunked(kk, 64)]):
         chk.evaluations += stats["n"]
         chk.out_of_model += stats["n"]
